@@ -59,6 +59,18 @@ impl GraphCase {
             self.specs.to_graph_specs(),
         )
     }
+    /// the same graph with every weight divided by `div` (a power of two: exact in f64): non-integer weights for the
+    /// algorithms whose model works on the integer numerators
+    pub fn build_scaled(&self, div: u32) -> Result<G, graphrs::Error> {
+        Graph::new_from_nodes_and_edges(
+            self.nodes.iter().map(|n| N { name: *n, attr: None }.to_node()).collect(),
+            self.edges.iter().map(|e| match e.2 {
+                Some(w) => graphrs::Edge::with_weight(e.0, e.1, w as f64 / div as f64),
+                None => graphrs::Edge::new(e.0, e.1),
+            }).collect(),
+            self.specs.to_graph_specs(),
+        )
+    }
     /// smaller variants: drop an edge, drop a node (with its edges), weights to 1
     pub fn candidates(&self) -> Vec<GraphCase> {
         let mut out = vec![];
